@@ -14,6 +14,7 @@ import random
 
 from .. import vloop, ncpsim, ncpmodel
 from ..runner import Acc
+from .. import logmode
 from ..contracts import install_status_contract
 
 PROPERTY = "C16"
@@ -63,7 +64,7 @@ def run_shard(desc) -> Acc:
     import bellows.ezsp.config as ecfg
     import bellows.types as t
 
-    logging.disable(logging.CRITICAL)
+    logmode.apply(desc)
     acc = Acc()
     install_status_contract(acc)
     V = desc["version"]
